@@ -508,10 +508,13 @@ fn format(opt: opt::Opt) -> Result<i32> {
                     let path = entry.path().to_owned(); // TODO: stop to_owned?
                     let opt = opt.clone();
 
-                    if seen_files.contains(&path) {
+                    // The same file can be reached through several arguments under different
+                    // spellings (`a.lua` and `./a.lua`, or `.` and `a.lua`)
+                    let seen_key = path.strip_prefix("./").unwrap_or(&path).to_owned();
+                    if seen_files.contains(&seen_key) {
                         continue;
                     }
-                    seen_files.insert(path.clone());
+                    seen_files.insert(seen_key);
 
                     if path.is_file() {
                         // If the user didn't provide a glob pattern, we should match against our default one
